@@ -296,11 +296,44 @@ pub fn enumerate(family: &str, thorough: bool, f: &mut dyn FnMut(&str, Vec<u8>))
                 }
             }
         }
+        "truncate" => {
+            // every prefix of every host that ends after a lexeme: as it is, with a line end, with a comment, with an opened comment or string
+            for (_name, toks) in hosts() {
+                for k in 0..=toks.len() {
+                    let t = toks[..k].join(" ");
+                    f("prefix", t.clone().into_bytes());
+                    f("prefix+line-end", format!("{}\n", t).into_bytes());
+                    f("prefix+comment", format!("{} (* c *)\n", t).into_bytes());
+                    f("prefix+open-comment", format!("{} (* c", t).into_bytes());
+                    f("prefix+open-string", format!("{} 'c", t).into_bytes());
+                    f("prefix+crlf", format!("{}\r\n", t).into_bytes());
+                }
+            }
+        }
+        "graphs" => {
+            // reference graphs among declarations (C07's space): every digraph on up to 3 nodes in every realisation,
+            // on 4 nodes as function blocks and as structures; analysis must end on cyclic input too
+            use crate::checks::c07::{realise, Graph, Real};
+            for n in 1..=4usize {
+                let reals: Vec<Real> = if n <= 3 { vec![Real::Fb, Real::Struct, Real::AliasMix, Real::FbStructMix(0b0101), Real::FbStructMix(0b0010)] } else { vec![Real::Fb, Real::Struct] };
+                for mask in 0u64..(1u64 << (n * n)) {
+                    let g = Graph::from_mask(n, mask);
+                    for real in &reals {
+                        let order: Vec<usize> = (0..n).collect();
+                        f("declaration-graph", realise(&g, *real, &order).into_bytes());
+                        if thorough || n <= 3 {
+                            let order: Vec<usize> = (0..n).rev().collect();
+                            f("declaration-graph-reversed", realise(&g, *real, &order).into_bytes());
+                        }
+                    }
+                }
+            }
+        }
         _ => panic!("unknown family {}", family),
     }
 }
 
-pub const FAMILIES: [&str; 8] = ["edit1", "edit2", "bytes", "tokens", "nesting", "size", "literals", "bodies"];
+pub const FAMILIES: [&str; 10] = ["edit1", "edit2", "bytes", "tokens", "nesting", "size", "literals", "bodies", "graphs", "truncate"];
 
 fn decode(bytes: &[u8]) -> String {
     match std::str::from_utf8(bytes) {
@@ -547,7 +580,7 @@ fn run_slice(family: &str, thorough: bool, start: usize, end: usize, stride: usi
 
 pub fn run(ctx: &mut Ctx) {
     let thorough = ctx.tier.thorough();
-    ctx.rule = "families: edit1 (every host x every token position x {delete, duplicate, swap, replace by / insert each lexeme of the alphabet}), edit2 (every pair of alphabet lexemes inserted at positions of small hosts), bytes (every byte string of length <= 2; thorough: length 3 over a 70-byte alphabet), tokens (every token string of length <= 2, spaced and abutting; thorough: length 3), nesting (19 constructors x depth 1..12 x {valid, bad core, missing closer}), size (18 inputs of ~64 KiB), literals (the C09 space and numeric extremes in 10 other positions); distinct = inputs are distinct by construction (counted); bodies (every string up to length 4, thorough 5, over the characters that are special inside a single- or double-quoted string, a comment, a duration, a based integer, a direct address, a number and a date-and-time literal, in that context)".into();
+    ctx.rule = "families: edit1 (every host x every token position x {delete, duplicate, swap, replace by / insert each lexeme of the alphabet}), edit2 (every pair of alphabet lexemes inserted at positions of small hosts), bytes (every byte string of length <= 2; thorough: length 3 over a 70-byte alphabet), tokens (every token string of length <= 2, spaced and abutting; thorough: length 3), nesting (19 constructors x depth 1..12 x {valid, bad core, missing closer}), size (18 inputs of ~64 KiB), literals (the C09 space and numeric extremes in 10 other positions); distinct = inputs are distinct by construction (counted); bodies (every string up to length 4, thorough 5, over the characters that are special inside a single- or double-quoted string, a comment, a duration, a based integer, a direct address, a number and a date-and-time literal, in that context); graphs (every reference graph among up to 4 declarations, cyclic ones included); truncate (every prefix of every host that ends after a lexeme, bare and followed by a line end, a comment, an opened comment, an opened string)".into();
     ctx.assumptions.push(format!("each input runs tokenize, parse, and if it parses analyze and render, under catch_unwind on a thread with an 8 MiB stack in a worker process; budget {} s per input; the build has overflow checks and debug assertions on", BUDGET.as_secs()));
     ctx.assumptions.push("byte strings that are not UTF-8 are decoded as Latin-1 (the file reader falls back to Windows-1252, which differs only in 0x80-0x9F, all of which the lexer treats alike)".into());
     ctx.bounds.insert("alphabet_lexemes".into(), json!(alphabet().len()));
